@@ -3,6 +3,7 @@ import re
 
 from .. import audit, backend
 from ..core import RuleResult
+from ..facts import AnalysisError
 from ..mir import Fn, Flow, op_local, op_root, is_passthrough, place_fields
 
 HASH_ADTS = ("std::collections::hash::map::HashMap", "std::collections::hash::set::HashSet")
@@ -584,4 +585,95 @@ def rule_ambient(ctx):
         from ..facts import AnalysisError
         raise AnalysisError("R-HASH positive control not reported")
     res.notes.append("R-HASH positive control: %d violations on fixtures/poscontrol as expected" % len(pres.violations))
+    return res
+
+
+def rule_trunc(ctx):
+    """R-TRUNC: output files are written from an empty file"""
+    fx = ctx.fx
+    res = RuleResult("R-TRUNC", "every file the compiler writes is opened so that nothing of an earlier file of the same name survives: "
+                     "File::create (truncates), or OpenOptions with truncate(true), append(true) or create_new(true) besides write(true). "
+                     "A file opened with write+create only keeps the tail of a longer earlier file, so what a compilation leaves on disk "
+                     "depends on what was compiled before")
+    n = 0
+    for key, f in sorted(fx.fns.items()):
+        if f["crate"] in SKIP_CRATES or "{promoted" in key:
+            continue
+        fn = None
+        for bi, b in enumerate(f["blocks"]):
+            t = b["term"]
+            if t["k"] != "call":
+                continue
+            nm = t.get("callee_name")
+            c = t.get("callee") or ""
+            slf = (t.get("callee_self") or "") + (t.get("callee_self_adt") or "")
+            if nm in ("create", "create_new", "create_buffered") and "fs::File" in slf + c and c.startswith(("std::fs", "std::fs::File")):
+                n += 1
+                res.inst("%s@File::%s:%d" % (key, nm, n), t["sp"]["file"], t["sp"]["line"], "ok", "File::%s starts from an empty file" % nm, nontrivial=False)
+                continue
+            if nm == "write" and c.startswith("std::fs::write"):
+                n += 1
+                res.inst("%s@fs::write:%d" % (key, n), t["sp"]["file"], t["sp"]["line"], "ok", "fs::write replaces the file", nontrivial=False)
+                continue
+            if nm != "open" or "OpenOptions" not in slf + c:
+                continue
+            fn = fn or Fn(f)
+            n += 1
+            # the builder chain behind the receiver
+            opts = {}
+            work, seen = [op_root(t["args"][0])] if t["args"] else [], set()
+            unknown = False
+            while work:
+                l0 = work.pop()
+                if l0 is None or l0 in seen:
+                    continue
+                seen.add(l0)
+                for d in fn.defs().get(l0, []):
+                    if d["kind"] == "call":
+                        t2 = d["term"]
+                        n2 = t2.get("callee_name")
+                        if n2 in ("write", "create", "truncate", "append", "read", "create_new") and "OpenOptions" in ((t2.get("callee_self") or "") + (t2.get("callee") or "")):
+                            a = t2["args"][1] if len(t2["args"]) > 1 else {}
+                            v = a.get("val") if a.get("k") == "const" else None
+                            opts.setdefault(n2, set()).add(str(v).lower() if v is not None else "?")
+                            work.append(op_root(t2["args"][0]))
+                        elif n2 == "new" or n2 == "options":
+                            pass
+                        elif n2 in ("deref", "deref_mut", "borrow_mut", "clone"):
+                            work.append(op_root(t2["args"][0]))
+                        else:
+                            unknown = True
+                    elif d.get("rv", {}).get("k") in ("ref", "use", "cast"):
+                        rv = d["rv"]
+                        pl = rv.get("pl") or (rv.get("op") or {}).get("pl")
+                        if pl:
+                            work.append(pl["l"])
+                    elif d["kind"] == "arg":
+                        unknown = True
+                # the builder is also configured through `&mut` calls on the same local (opts.write(true); opts.open(..))
+                for u in fn.uses().get(l0, []):
+                    if u["kind"] == "arg" and u["ai"] == 0:
+                        t2 = u["term"]
+                        n2 = t2.get("callee_name")
+                        if n2 in ("write", "create", "truncate", "append", "read", "create_new") and "OpenOptions" in ((t2.get("callee_self") or "") + (t2.get("callee") or "")):
+                            a = t2["args"][1] if len(t2["args"]) > 1 else {}
+                            v = a.get("val") if a.get("k") == "const" else None
+                            opts.setdefault(n2, set()).add(str(v).lower() if v is not None else "?")
+            ikey = "%s@OpenOptions::open:%d" % (key, sum(1 for b2 in f["blocks"][:bi] if b2["term"]["k"] == "call" and b2["term"].get("callee_name") == "open"))
+
+            def on(name):
+                return bool(opts.get(name, set()) & {"true", "1", "?"})
+            writes = on("write") or on("append")
+            fresh = any(opts.get(x, set()) & {"true", "1"} for x in ("truncate", "append", "create_new"))
+            if unknown and not fresh:
+                raise AnalysisError("R-TRUNC: the options of the file opened at %s:%d are configured outside the function" % (t["sp"]["file"], t["sp"]["line"]))
+            if writes and not fresh:
+                res.inst(ikey, t["sp"]["file"], t["sp"]["line"], "violation")
+                res.violate(ikey, "a file is opened for writing with OpenOptions (%s) but neither truncated, appended to nor required to be new: when a "
+                            "longer file of that name exists its tail survives, and the bytes on disk depend on earlier compilations" %
+                            ", ".join("%s(%s)" % (k_, "/".join(sorted(v_))) for k_, v_ in sorted(opts.items())), t["sp"]["file"], t["sp"]["line"])
+            else:
+                res.inst(ikey, t["sp"]["file"], t["sp"]["line"], "ok", "read-only" if not writes else "starts from an empty file / appends")
+    if n < 3:
+        raise AnalysisError("R-TRUNC: only %d file-opening sites found (the driver writes its artefacts, the C driver and the runtime)" % n)
     return res
